@@ -26,7 +26,7 @@ class C10(C01):
 
     def plan(self, tier):
         if tier == "quick":
-            return {"units": 4000, "budget_s": 90, "block": 20}
+            return {"units": 2500, "budget_s": 90, "block": 20}
         return {"units": 120000, "budget_s": 1500, "block": 40}
 
     def gen(self, rng, idx, tier):
@@ -39,10 +39,22 @@ class C10(C01):
             base["steps"].append(wl.call(rng.choice(["set", "get", "delete", "incr", "touch", "add", "gets",
                                                      "get_many", "set_many", "version"
                                                      if w["stack"] != "hash" else "get"])))
+        if w["stack"] != "client" and rng.random() < 0.4:
+            # a call that is rejected before any I/O while the pooled connection is open: the pool then discards
+            # a perfectly healthy connection, and the only socket call of that operation is the close()
+            pos = rng.randrange(max(npre, 1), len(base["steps"]) - 2)
+            bad = rng.choice([{"m": "set", "a": [E(b"bad key"), E(b"v")], "k": {}},
+                              {"m": "incr", "a": [E(b"k1"), E("x")], "k": {}},
+                              {"m": "touch", "a": [E(b"k1")], "k": {"expire": E("soon")}},
+                              {"m": "get", "a": [E(b"x" * 300)], "k": {}}])
+            base["steps"].insert(pos, dict(bad, t="call", tag="rejected-input"))
         call_steps = [i for i, s in enumerate(base["steps"]) if s["t"] == "call" and i >= npre]
         res = engine.execute(base, ())
         recs = {c.step: c for c in res.calls}
         chosen = sorted(rng.sample(call_steps[:-3], min(len(call_steps) - 3, rng.randint(1, 2))))
+        for i in call_steps[:-3]:
+            if base["steps"][i].get("tag") == "rejected-input" and i not in chosen:
+                chosen.append(i)
         out = []
         for i in chosen:
             rec = recs.get(i)
@@ -89,6 +101,8 @@ class C10(C01):
             if rec.fired:
                 interrupted = True
                 continue
+            if scn["steps"][rec.step].get("tag") == "rejected-input":
+                continue       # what a rejected argument returns or raises is not this property's business
             d = check_result(cfg, res.world, rec, scn["steps"][rec.step], ignore_exc=ign)
             if d is not None:
                 out.append(viol("result-not-from-own-reply", rec, after_interrupt=interrupted, **d))
@@ -97,7 +111,7 @@ class C10(C01):
 
     def probe_names(self):
         return ("interrupt-in-recv", "interrupt-in-sendall-after", "interrupt-after-partial-send", "interrupt-in-connect",
-                "interrupt-pooled", "calls-after-interrupt")
+                "interrupt-pooled", "calls-after-interrupt", "interrupt-in-close-while-pool-discards-a-healthy-connection")
 
     def probes(self, scn, res):
         p = {}
@@ -112,6 +126,8 @@ class C10(C01):
                         p["interrupt-in-recv"] = 1
                     if f[0] == "connect":
                         p["interrupt-in-connect"] = 1
+                    if f[0] == "close" and c.step >= 0 and scn["steps"][c.step].get("tag") == "rejected-input":
+                        p["interrupt-in-close-while-pool-discards-a-healthy-connection"] = 1
                     if scn["world"]["stack"] != "client":
                         p["interrupt-pooled"] = 1
             st = scn["steps"][c.step] if c.step >= 0 else {}
